@@ -68,7 +68,7 @@ func init() {
 		return []string{"done"}
 	}
 	checkers["C13"] = checker{
-		rule: "for each entry point taking an untrusted image or signature (Parse + Signatures/Hash/Bytes/Open/Verify, ParseAuthenticode + Verify, ParsePKCS7 + Verify/HasCertificate, ReadWinCertificate, descriptor Verify): structure-aware mutations of valid images (e_lfanew, optional-header size, NumberOfRvaAndSizes, SizeOfHeaders, section offsets/sizes incl. overlapping and beyond EOF, certificate directory beyond the file, every truncation class, WIN_CERTIFICATE dwLength below 8 and huge) and of valid signatures (truncated and oversized DER lengths, signed attributes absent, attributes without contentType, unknown OIDs, every DER-structural edit of C04) plus random bytes; one sandboxed worker call per (entry point, input) reporting return/panic/exit/timeout and the TotalAlloc delta; R_C13 (extracted check_safety) requires a return and TotalAlloc <= 64*|input| + 32 MiB; non-trivial = non-empty input, distinct by (entry, input) hash",
+		rule: "for each entry point taking an untrusted image or signature (Parse + Signatures/Hash/Bytes/Open/Verify, ParseAuthenticode + Verify, ParsePKCS7 + Verify/HasCertificate, ReadWinCertificate, descriptor Verify): structure-aware mutations of valid images (e_lfanew, optional-header size, NumberOfRvaAndSizes, SizeOfHeaders, section offsets/sizes incl. overlapping and beyond EOF, hundreds of sections covering the same bytes, a certificate table ending unpadded after an entry whose dwLength is not a multiple of 8, certificate directory beyond the file, every truncation class, WIN_CERTIFICATE dwLength below 8 and huge) and of valid signatures (truncated and oversized DER lengths, signed attributes absent, attributes without contentType, unknown OIDs, every DER-structural edit of C04) plus random bytes; one sandboxed worker call per (entry point, input) reporting return/panic/exit/timeout and the TotalAlloc delta; R_C13 (extracted check_safety) requires a return and TotalAlloc <= 64*|input| + 32 MiB; non-trivial = non-empty input, distinct by (entry, input) hash",
 		run:  runC13,
 	}
 }
@@ -102,7 +102,57 @@ func peFieldMutant(rng *rand.Rand, img []byte) ([]byte, string) {
 			binary.LittleEndian.PutUint16(m[off:], v)
 		}
 	}
-	switch rng.Intn(14) {
+	switch rng.Intn(16) {
+	case 14:
+		// a certificate table that ends right after its only entry, whose dwLength is not a multiple of 8
+		va := int(binary.LittleEndian.Uint32(m[opt+ddoff+32:]))
+		if va == 0 || va > len(m) {
+			for len(m)%8 != 0 {
+				m = append(m, 0)
+			}
+			va = len(m)
+		}
+		l := 9 + rng.Intn(40)
+		hdr := make([]byte, 8)
+		binary.LittleEndian.PutUint32(hdr, uint32(l))
+		binary.LittleEndian.PutUint16(hdr[4:], 0x0200)
+		binary.LittleEndian.PutUint16(hdr[6:], 0x0002)
+		m = append(append(m[:va:va], hdr...), randBytes(rng, l-8)...)
+		extra := 0
+		if pad := (8 - l%8) % 8; pad > 1 && rng.Intn(2) == 0 {
+			extra = rng.Intn(pad) // 0 .. pad-1 bytes of the padding present
+		}
+		m = append(m, make([]byte, extra)...)
+		put32(opt+ddoff+32, uint32(va))
+		put32(opt+ddoff+36, uint32(l+extra))
+		return m, "cert-table-unpadded"
+	case 15:
+		// hundreds of sections that all cover the same bytes
+		n := 200 + rng.Intn(900)
+		span := 16384 << uint(rng.Intn(3))
+		h := (secTab + 40*n + 511) &^ 511
+		out := append([]byte{}, m[:secTab]...)
+		for i := 0; i < n; i++ {
+			sh := make([]byte, 40)
+			copy(sh, fmt.Sprintf(".s%d", i))
+			binary.LittleEndian.PutUint32(sh[8:], uint32(span))
+			binary.LittleEndian.PutUint32(sh[12:], uint32(0x1000*(i+1)))
+			binary.LittleEndian.PutUint32(sh[16:], uint32(span))
+			binary.LittleEndian.PutUint32(sh[20:], uint32(h))
+			out = append(out, sh...)
+		}
+		for len(out) < h {
+			out = append(out, 0)
+		}
+		out = append(out, randBytes(rng, span)...)
+		m = out
+		put16(e+6, uint16(n))
+		put32(opt+60, uint32(h))
+		put32(e+8, 0)
+		put32(e+12, 0)
+		put32(opt+ddoff+32, 0)
+		put32(opt+ddoff+36, 0)
+		return m, "overlap-many"
 	case 0:
 		put32(0x3c, pick(rng, vals32))
 		return m, "e_lfanew"
